@@ -25,7 +25,6 @@ import (
 	"github.com/pkg/errors"
 	"go.uber.org/multierr"
 	"google.golang.org/grpc/status"
-	pb "google.golang.org/protobuf/proto"
 
 	"github.com/oxia-db/oxia/common/concurrent"
 	"github.com/oxia-db/oxia/common/constant"
@@ -482,7 +481,7 @@ func (lc *leaderController) applyAllEntriesIntoDBLoop(r wal.Reader) error {
 		}
 
 		logEntryValue := &proto.LogEntryValue{}
-		if err = pb.Unmarshal(entry.Value, logEntryValue); err != nil {
+		if err = logEntryValue.UnmarshalVT(entry.Value); err != nil {
 			return err
 		}
 		for _, writeRequest := range logEntryValue.GetRequests().Writes {
